@@ -775,7 +775,9 @@ dt_io_strpdtdur(struct __strpdtdur_st_s *st, const char *str)
 	}
 out:
 	if (((st->cont = ep) && *ep == '\0') || (sp == ep)) {
+		/* prefixes go with one string only */
 		st->sign = 0;
+		st->flags = 0U;
 		st->cont = NULL;
 	}
 	return res;
